@@ -27,6 +27,29 @@ fn verif_replay() {
             drop(busy);
             let _ = tokio::time::timeout(ms(500), api).await;
             serde_json::json!({"panicked": false, "new_connection_blocked": blocked})
+        } else if which == "gc_round_race" {
+            // the real collector task; connection A has ended, the collector takes it up but cannot finish its round while the live
+            // registry is held (standing for: it waits for the access-log queue, or somebody lists /api/live); connection B ends
+            // in the middle of that round.  Afterwards both must be in the history (newest first) and gone from the live registry.
+            let mut cs0 = crate::context::GlobalState::default();
+            cs0.history_size = 10;
+            let cs = Arc::new(cs0);
+            cs.clone().gc_thread();
+            let a_ = cs.create_context("l".into(), "127.0.0.1:1001".parse().unwrap()).await;
+            let b_ = cs.create_context("l".into(), "127.0.0.1:1002".parse().unwrap()).await;
+            let ida = a_.read().await.props().id;
+            let idb = b_.read().await.props().id;
+            drop(a_);
+            let guard = cs.alive.lock().await;
+            tokio::time::sleep(ms(1500)).await;
+            drop(b_);
+            drop(guard);
+            tokio::time::sleep(ms(2500)).await;
+            let history: Vec<u64> = cs.terminated.lock().await.iter().map(|p| p.id).collect();
+            let live = cs.alive.lock().await.len();
+            let queued = cs.gc_list.lock().unwrap().len();
+            serde_json::json!({"panicked": false, "history": history, "expected": [idb, ida], "live_left": live, "still_queued": queued,
+                               "all_reported_once": history == vec![idb, ida] && live == 0})
         } else if which == "post_rules_vs_dispatch" {
             // a rule list that differs from the installed one is POSTed; meanwhile the dispatcher's first step -- reading the
             // rule list (state.rules().await) -- must still get its turn, and the POST itself must come back
